@@ -1,84 +1,3 @@
-(* SSZ hash-tree model with the semantics of github.com/ferranbt/fastssz v1.0.0 hasher.go, as used
-   by cluster/ssz.go.
-
-   The Go [Hasher] keeps a byte buffer that (for every call sequence cluster/ssz.go makes) is a
-   whole number of 32-byte chunks; [Index] marks a position, [Merkleize(indx)] replaces the chunks
-   after the mark by their merkle root, [MerkleizeWithMixin(indx,num,limit)] replaces them by
-   H(root-with-limit, uint64le(num)).  The model keeps the buffer as a list of chunks; a chunk is a
-   list of bytes (bytes are [N]; nothing below depends on bytes being < 256 or chunks having 32
-   elements, which keeps the injectivity hypothesis on [H] satisfiable).
-
-   The compression function [H] (SHA-256 of the 64-byte concatenation in Go) is a Section
-   variable.  Injectivity lemmas carry the Section hypothesis [H_inj] (collision-freedom
-   idealisation); evaluation lemmas do not. *)
-From Coq Require Import List NArith Bool Arith Lia.
-Import ListNotations.
-
-Definition chunk := list N.
-
-Definition zero_chunk : chunk := repeat 0%N 32.
-
-(* AppendBytes32: right-pad with zero bytes to a multiple of 32. *)
-Definition pad32 (b : list N) : chunk := b ++ repeat 0%N (32 - length b).
-
-Fixpoint chunks_aux (fuel : nat) (b : list N) : list chunk :=
-  match fuel with
-  | O => []
-  | S f => match b with
-           | [] => []
-           | _ => pad32 (firstn 32 b) :: chunks_aux f (skipn 32 b)
-           end
-  end.
-
-(* The chunks appended by AppendBytes32(b): none for the empty string. *)
-Definition chunks_of (b : list N) : list chunk := chunks_aux (length b) b.
-
-(* little-endian bytes of n, k of them (binary.LittleEndian.PutUint64 for k = 8) *)
-Fixpoint le_bytes (k : nat) (n : N) : list N :=
-  match k with
-  | O => []
-  | S k' => N.modulo n 256 :: le_bytes k' (N.div n 256)
-  end.
-
-Definition u64chunk (n : N) : chunk := pad32 (le_bytes 8 n).
-
-(* leftPad of cluster/helpers.go *)
-Definition left_pad (b : list N) (n : nat) : list N := repeat 0%N (n - length b) ++ b.
-
-(* ---------------------------------------------------------------------------------------- *)
-(* byte-level facts (no hash involved) *)
-Local Arguments firstn : simpl never.
-Local Arguments skipn : simpl never.
-
-Lemma pad32_inj : forall a b, length a = length b -> pad32 a = pad32 b -> a = b.
-Proof.
-  unfold pad32. intros a b L E. rewrite L in E.
-  apply app_inv_tail in E. exact E.
-Qed.
-
-Lemma app_inj_len {A} : forall (a b c d : list A), length a = length c -> a ++ b = c ++ d -> a = c /\ b = d.
-Proof.
-  induction a; destruct c; simpl; intros; try discriminate; auto.
-  inversion H0; subst. inversion H. destruct (IHa _ _ _ H2 H3). subst. auto.
-Qed.
-
-Lemma cons_inj {A} : forall (a b : A) l m, a :: l = b :: m -> a = b /\ l = m.
-Proof. intros. inversion H. auto. Qed.
-
-Lemma chunks_aux_len : forall f a b, length a = length b ->
-  length (chunks_aux f a) = length (chunks_aux f b).
-Proof.
-  induction f; simpl; intros; auto.
-  destruct a, b; simpl in *; try discriminate; auto.
-  f_equal. apply IHf. rewrite !skipn_length. simpl. lia.
-Qed.
-
-Lemma chunks_aux_inj : forall f a b, length a = length b -> length a <= f ->
-  chunks_aux f a = chunks_aux f b -> a = b.
-Proof.
-  induction f; simpl; intros a b L F E.
-  - destruct a; simpl in F; [|lia]. destruct b; simpl in L; [reflexivity|discriminate].
-  - destruct a as [|x a], b as [|y b]; try discriminate; auto.
-    apply cons_inj in E. destruct E as [E1 E2].
-    assert (LF : length (firstn 32 (x :: a)) = length (firstn 32 (y :: b))).
-    rewrite !firstn_length. simpl in *. Show.
+From Charon Require Import Codec.HashProgFacts.
+Print Assumptions root_injective.
+Check root_injective.
